@@ -119,6 +119,7 @@ int snoopy_filter_exclude_spawns_of (char const * const arg)
 static int find_ancestor_in_list(char ** name_list)
 {
     pid_t ppid;
+    int is_self;
     char stat_path[ST_PATH_SIZE_MAX];
     FILE * statf;
     int rc;
@@ -144,10 +145,14 @@ static int find_ancestor_in_list(char ** name_list)
     if (name_list == NULL) {
         return -1;
     }
-    ppid = getppid(); // We start with the parent
-    while (ppid != 0) {
-        // Create the path to /proc/<ppid>/stat
-        snprintf(stat_path, ST_PATH_SIZE_MAX, "/proc/%d/stat", ppid);
+    /*
+     * We start with the calling process, but only to learn the parent's number from the same procfs instance
+     * the walk continues in: getppid() is a number of our own PID namespace, which is not necessarily the one
+     * whose processes are listed under /proc.
+     */
+    is_self = 1;
+    snprintf(stat_path, ST_PATH_SIZE_MAX, "/proc/self/stat");
+    for (;;) {
         statf = fopen(stat_path, "re");
         if (statf == NULL) {
             return -1;
@@ -182,11 +187,19 @@ static int find_ancestor_in_list(char ** name_list)
             return -1;
         }
 
-        found = find_string_in_array(st_comm_buf, name_list);
+        found = is_self ? 0 : find_string_in_array(st_comm_buf, name_list);
 
         if (found) {
             return 1;
         }
+
+        if (ppid == 0) {
+            break;
+        }
+
+        // Create the path to /proc/<ppid>/stat
+        is_self = 0;
+        snprintf(stat_path, ST_PATH_SIZE_MAX, "/proc/%d/stat", ppid);
     }
 
     return 0; // Nothing found
